@@ -50,6 +50,7 @@ import (
 	"github.com/NVIDIA/KAI-scheduler/pkg/scheduler/api/pod_info"
 	"github.com/NVIDIA/KAI-scheduler/pkg/scheduler/api/pod_status"
 	"github.com/NVIDIA/KAI-scheduler/pkg/scheduler/api/podgroup_info"
+	"github.com/NVIDIA/KAI-scheduler/pkg/scheduler/api/podgroup_info/subgroup_info"
 	"github.com/NVIDIA/KAI-scheduler/pkg/scheduler/api/resource_info"
 	"github.com/NVIDIA/KAI-scheduler/pkg/scheduler/cache"
 	"github.com/NVIDIA/KAI-scheduler/pkg/scheduler/cache/cluster_info"
@@ -128,7 +129,11 @@ func (c *acluster) describe() string {
 		if i > 0 {
 			sb.WriteString("; ")
 		}
-		fmt.Fprintf(&sb, "%s@%s pri=%d [", j.Name, j.Queue, j.Priority)
+		fmt.Fprintf(&sb, "%s@%s pri=%d", j.Name, j.Queue, j.Priority)
+		if j.MinAvail > 0 {
+			fmt.Fprintf(&sb, " minMember=%d", j.MinAvail)
+		}
+		sb.WriteString(" [")
 		for k, t := range j.Tasks {
 			if k > 0 {
 				sb.WriteString(" ")
@@ -145,6 +150,9 @@ func (c *acluster) describe() string {
 			}
 			if t.CPUm > 0 {
 				fmt.Fprintf(&sb, "/cpu%d", t.CPUm)
+			}
+			if t.MemMB > 0 || t.MemB > 0 {
+				fmt.Fprintf(&sb, "/mem%dB", t.MemMB*1000000+t.MemB)
 			}
 			if t.State == "running" {
 				sb.WriteString("=running@" + t.Node)
@@ -442,7 +450,11 @@ func buildAction(c *acluster) *abuilt {
 			}
 			tasks = append(tasks, ti)
 		}
-		job := jobs_fake.BuildJobInfo(j.Name, "ns", common_info.PodGroupID(j.Name), allocated, nil, tasks, j.Priority,
+		var root *subgroup_info.SubGroupSet // nil: one default pod set with minAvailable = number of pods (a gang)
+		if j.MinAvail > 0 {
+			root = jobs_fake.DefaultSubGroup(j.MinAvail)
+		}
+		job := jobs_fake.BuildJobInfo(j.Name, "ns", common_info.PodGroupID(j.Name), allocated, root, tasks, j.Priority,
 			pg.CalculatePreemptibility("", j.Priority), common_info.QueueID(j.Queue),
 			base.Add(time.Duration(ji)*time.Minute), nil, vm)
 		j.Preemptible = job.IsPreemptibleJob()
@@ -1575,7 +1587,9 @@ func emitActions(out *u.Out, clusters []*acluster) {
 			fmt.Fprintf(os.Stderr, "PANIC in action session: %s\n  cluster: %s\n", o.Panic, c.describe())
 		}
 		fam := c.Family
-		if strings.HasPrefix(fam, "corpus/") {
+		if strings.HasPrefix(fam, "corpus/tiny/") {
+			fam = "tiny-corpus"
+		} else if strings.HasPrefix(fam, "corpus/") {
 			fam = "corpus"
 		}
 		out.Add(o.Term, o.Label)
